@@ -139,7 +139,10 @@ Definition extract_cd_target (t : tree) : option str :=
   | [w0; w1] =>
       if negb (str_eqb (word_value w0) $"cd") then None
       else if existsb (fun p => mem_str (kind_of p) CD_DYNAMIC_PARTS) (children "parts" w1) then None
-      else Some (word_value w1)
+      else let tgt := word_value w1 in
+           (* cd -, cd ~-, cd ~user, cd -P: not the name of a directory *)
+           if prefixb [45] tgt || (prefixb [126] tgt && negb (match tl tgt with [] => true | c :: _ => N.eqb c 47 end)) then None
+           else Some tgt
   | _ => None
   end.
 
@@ -213,14 +216,16 @@ Definition redirect_file (raw tgt : str) : bool * str :=
 (* the part of _analyze_redirects after the target's substitutions, for remote = false:
    Some t = this redirect needs a redirect rule for the file t.
    raw = target.value, tgt = _get_word_value(target) *)
+(* bash expands a leading ~ only when it is not quoted: the file "~/x" names is ./~/x *)
+Definition lookup_name (raw t : str) : str := if prefixb [126] t && negb (prefixb [126] raw) then [46; 47] ++ t else t.
 Definition redirect_check (op raw tgt : str) : option str :=
   let bare := strip_fd_prefix op in
   let '(dup, t) := redirect_file raw tgt in
   if dup then None
   else if mem_str bare REDIRECT_DUP_OPS && (is_ascii_digits t || str_eqb t [45]) then None
   else if mem_str t SAFE_REDIRECT_TARGETS then None
-  else if mem_str bare REDIRECT_WRITE_OPS then Some t
-  else None.
+  else
+    if mem_str bare REDIRECT_WRITE_OPS then Some (lookup_name raw t) else None.
 
 Section Walker.
   (* _analyze_simple_command(words, config, cwd, remote).action *)
